@@ -6,6 +6,9 @@ A spec shares no code with sismic.model: it is plain data on which the reference
 import re
 
 NAME_POOL = [a + b for a in 'kqzmbxtdhgrwcfjlnpsv' for b in 'aeiou']
+# names of one to three characters that are prefixes / substrings of each other ('k', 'ka', 'kak', 'ak', ...): state names are
+# arbitrary strings, nothing may depend on their length or on one containing another
+NESTED_POOL = list('akbdg') + [a + b for a in 'akbdg' for b in 'akbdg'] + [a + b + c for a in 'ak' for b in 'ak' for c in 'akb']
 EVENTS = ['ea', 'eb', 'ec', 'ed']
 
 HIST = ('shallow', 'deep')
@@ -186,6 +189,7 @@ class Cfg:
         self.time_obs = False     # code logs `time`; states carry time-aware invariants
         self.anon = False         # code also sends events without any distinguishing parameter (equal by value)
         self.echo = False         # some guards use the event-free form and their text doubles as entry/exit code of a state
+        self.nested_names = False  # names from NESTED_POOL (drawn by swarm in one run out of six)
         self.sentconds = False    # a third of the contract conditions also log sent('na'), sent('ea'), received('ea')
         self.brace = False        # some guard texts contain braces (they end up in error messages and exports)
         self.force_history = False
@@ -206,6 +210,7 @@ def swarm(st, cfg, tier):
     for name in ('orthogonal', 'history', 'final', 'internal', 'eventless', 'priorities'):
         if getattr(cfg, name) is True:
             setattr(cfg, name, st.choice(8) != 1)     # mostly on, sometimes off
+    cfg.nested_names = st.choice(6) == 1
     return cfg
 
 
@@ -214,7 +219,7 @@ def swarm(st, cfg, tier):
 def gen_spec(st, cfg):
     """Draw one well-formed chart (W1-W8) from stream `st`."""
     sp = Spec()
-    pool = list(NAME_POOL)
+    pool = list(NESTED_POOL if cfg.nested_names else NAME_POOL)
 
     def fresh():
         if not pool:        # very large charts: fall back to generated names (still unique, still 2+ letters)
